@@ -15,7 +15,7 @@ import (
 
 // approxEq is deep equality with a relative tolerance of 1e-5 on floats (float32 arithmetic:
 // 2.54cm * (96/2.54) is not exactly 96).
-func approxEq(a, b reflect.Value) bool {
+func approxEq(a, b reflect.Value, foldPx bool) bool {
 	if a.IsValid() != b.IsValid() {
 		return false
 	}
@@ -36,10 +36,14 @@ func approxEq(a, b reflect.Value) bool {
 		if a.IsNil() || b.IsNil() {
 			return a.IsNil() == b.IsNil()
 		}
-		return approxEq(a.Elem(), b.Elem())
+		return approxEq(a.Elem(), b.Elem(), foldPx)
 	case reflect.Struct:
+		if foldPx && a.Type() == dimensionType {
+			x, y := a.Interface().(pr.Dimension), b.Interface().(pr.Dimension)
+			return foldUnit(x) == foldUnit(y) && approxEq(reflect.ValueOf(x.Value), reflect.ValueOf(y.Value), false)
+		}
 		for i := 0; i < a.NumField(); i++ {
-			if !approxEq(a.Field(i), b.Field(i)) {
+			if !approxEq(a.Field(i), b.Field(i), foldPx) {
 				return false
 			}
 		}
@@ -49,7 +53,7 @@ func approxEq(a, b reflect.Value) bool {
 			return false
 		}
 		for i := 0; i < a.Len(); i++ {
-			if !approxEq(a.Index(i), b.Index(i)) {
+			if !approxEq(a.Index(i), b.Index(i), foldPx) {
 				return false
 			}
 		}
@@ -59,7 +63,7 @@ func approxEq(a, b reflect.Value) bool {
 			return false
 		}
 		for _, k := range a.MapKeys() {
-			if !approxEq(a.MapIndex(k), b.MapIndex(k)) {
+			if !approxEq(a.MapIndex(k), b.MapIndex(k), foldPx) {
 				return false
 			}
 		}
@@ -76,7 +80,24 @@ func approxEq(a, b reflect.Value) bool {
 	return reflect.DeepEqual(a.Interface(), b.Interface())
 }
 
-func approx(a, b pr.CssProperty) bool { return approxEq(reflect.ValueOf(a), reflect.ValueOf(b)) }
+func approx(a, b pr.CssProperty) bool {
+	return approxEq(reflect.ValueOf(a), reflect.ValueOf(b), false)
+}
+
+// approxPx is approx modulo the two encodings of an absolute pixel length (Unit Px, or a
+// unit-less number read as pixels: vertical-align, letter-spacing, size) and of zero.
+func approxPx(a, b pr.CssProperty) bool {
+	return approxEq(reflect.ValueOf(a), reflect.ValueOf(b), true)
+}
+
+var dimensionType = reflect.TypeOf(pr.Dimension{})
+
+func foldUnit(d pr.Dimension) pr.Unit {
+	if d.Unit == pr.Px || d.Unit == 0 || d.Value == 0 {
+		return pr.Scalar
+	}
+	return d.Unit
+}
 
 // value computes a fresh style set and returns p on the element of the position.
 func (c *check) value(s *spec, src, eng string) pr.CssProperty {
@@ -518,6 +539,41 @@ func kwExpect(p *propInfo, kv kwValue, cx int) (rule kwRule, px float64) {
 	return kwSame, 0
 }
 
+// refPxPerUnit: the fixed ratios of the statement (1in = 96px = 72pt = 6pc = 2.54cm = 25.4mm = 101.6q).
+var refPxPerUnit = map[pr.Unit]float64{pr.In: 96, pr.Pt: 96.0 / 72, pr.Pc: 96.0 / 6, pr.Cm: 96 / 2.54, pr.Mm: 96 / 25.4, pr.Q: 96 / 101.6}
+
+// kwReference is the computed value of a validated value without relative parts: the value
+// itself, modulo two normalisations of the computed form (calibrations):
+//   - size: the page-size keywords (a4, letter ...) are validated as a pair of lengths in their
+//     natural absolute unit (mm, in); the computed value has them in px;
+//   - border-image-outset / border-image-width: one to three values are expanded to the four
+//     sides (top, right, bottom, left) as Backgrounds 3 §6.3 prescribes.
+func kwReference(p *propInfo, decl pr.CssProperty) pr.CssProperty {
+	switch v := decl.(type) {
+	case pr.Point:
+		if p.name == "size" {
+			for i, d := range v {
+				if f, ok := refPxPerUnit[d.Unit]; ok {
+					v[i] = pr.Dimension{Value: pr.Float(float64(d.Value) * f), Unit: pr.Px}
+				}
+			}
+			return v
+		}
+	case pr.Values:
+		if p.name == "border-image-outset" || p.name == "border-image-width" {
+			switch len(v) {
+			case 1:
+				return pr.Values{v[0], v[0], v[0], v[0]}
+			case 2:
+				return pr.Values{v[0], v[1], v[0], v[1]}
+			case 3:
+				return pr.Values{v[0], v[1], v[2], v[1]}
+			}
+		}
+	}
+	return decl
+}
+
 // pxOf: the value is one absolute pixel length (and nothing else).
 func pxOf(v pr.CssProperty) (float64, bool) {
 	if d, ok := v.(pr.DimOrS); ok && d.S == "" && (d.Unit == pr.Px || d.Unit == pr.Scalar || (d.Unit == 0 && d.Value == 0)) {
@@ -569,8 +625,9 @@ func (c *check) runKeywords(ctx *engine.Ctx, p *propInfo, engines []string) {
 					switch rule {
 					case kwSame:
 						ctx.Count("reach:R6-keyword:as-specified", 1)
-						want = canon(p.name, false, kv.decl)
-						bad = !approx(got, kv.decl) && sameLength(g) != sameLength(want)
+						ref := kwReference(p, kv.decl)
+						want = canon(p.name, false, ref)
+						bad = !approxPx(got, ref) && sameLength(g) != sameLength(want)
 					case kwZero:
 						ctx.Count("reach:R6-keyword:zero", 1)
 						want = "0px"
